@@ -10,6 +10,7 @@ Import ListNotations.
    a fresh read deadline before waiting for each request, a fresh write deadline immediately
    before each response *)
 Theorem C15_rearmed : forall T K c input script,
+  c_tls c = None ->
   match c_sess_auth c with
   | Some false => session T K c input script = [ESessAuth false; EClose CloseError]
   | Some true => exists t, session T K c input script = ESessAuth true :: t /\ trace_ok c t
@@ -17,6 +18,14 @@ Theorem C15_rearmed : forall T K c input script,
   end.
 Proof. exact session_trace. Qed.
 Print Assumptions C15_rearmed.
+
+(* on a TLS connection both deadlines are armed (iff configured) before the handshake, nothing else *)
+Theorem C15_handshake_arms : forall T K c input script ok,
+  c_tls c = Some ok ->
+  session T K c input script =
+    arm_r c ++ arm_w c ++ EHandshake ok :: (if ok then session_body T K c input script else [EClose CloseError]).
+Proof. exact session_tls. Qed.
+Print Assumptions C15_handshake_arms.
 
 (* with zero timeouts no deadline is ever set *)
 Theorem C15_zero_means_none : forall c t, trace_ok c t ->
